@@ -4,7 +4,7 @@ import contextlib
 import io
 import os
 
-from common import hx
+from common import hx, unhx
 import implutil as U
 import incutil as I
 import lexutil as L
@@ -14,8 +14,11 @@ ASSUMPTIONS = ['package bodies come from the dialect generator; require() calls 
                '`require("name")` or nested in a call, at the top level of a file (the walker\'s discovery is tested on nested forms separately)',
                'tokens are compared with the real lexer (C07 ties it to the grammar)']
 TRUSTED_EXTRA = ['modelled by hand: _evaluate_require (registration before recursion, discovery order), _prepend_package_lua (block layout) '
-                 'as Model/Require.lean; extraction of require() calls from the tree and file lookup are parameters of the model']
-PARTIAL = 'C14: proof of the packaging logic; extraction of require() calls from the tree, file lookup and token-range stripping are tied by correspondence'
+                 'as Model/Require.lean; RequireWalker/BaseASTWalker, game-loop stripping, file lookup and the composition with lexer and parser '
+                 'as Model/ReqWalk.lean (buildLua); the cart writer after the build is C03\'s model']
+PARTIAL = ('C14: the whole code transformation of `build --lua` is modelled (ReqWalk.buildLua) and compared byte for byte; the theorems characterise its '
+           'parts (discovery, argument validation, stripping decision and ranges, registration, lookup, assembly); "the built code parses" and the '
+           'token-for-token containment are decided by the oracle on generated graphs, not proved for all inputs')
 LOOPS = [b'_init', b'_update', b'_update60', b'_draw']
 NEAR = [b'function _update_hud()', b'function _draw2(a)', b'function _initialize()', b'function _update6()', b'function _update600()',
         b'function _init_()', b'function __init()', b'function init()', b'function _INIT()', b'function _updat()', b'function _dra()',
@@ -49,15 +52,38 @@ class Graph:
                 if j is None:
                     continue
                 f['reqs'].append((j, rng.random() < 0.2))
+        # load-path configuration: default, a relative template list, an absolute root first, and the same through the environment
+        self.lp_mode = rng.choice(['default', 'default', 'rel', 'abs', 'env-abs', 'env-rel'])
+        self.lua_path = {'default': None, 'rel': 'lib/?.lua;?.lua;?', 'env-rel': '?.lua;lib/?.lua',
+                         'abs': self.dir + '/?.lua;?.lua', 'env-abs': '?.lua;' + self.dir + '/?.lua'}[self.lp_mode]
         for i, f in enumerate(self.files):
             self.make_body(i, f)
 
+    def eff_path(self):
+        return self.lua_path or '?;?.lua'
+
+    def resolve(self, frm, name):
+        """index of the file the load path selects for `name` required from file `frm` (reference lookup: first existing candidate)"""
+        base = os.path.dirname(os.path.join(self.dir, self.files[frm]['rel']))
+        where = {os.path.normpath(os.path.join(self.dir, f['rel'])): k for k, f in enumerate(self.files)}
+        for tpl in self.eff_path().split(';'):
+            c = tpl.replace('?', name)
+            if not c.startswith('/'):
+                c = os.path.join(base, c)
+            if os.path.normpath(c) in where:
+                return where[os.path.normpath(c)]
+        return None
+
     def req_name(self, frm, to):
-        """the string passed to require(): relative to the requiring file's directory, without .lua"""
+        """a string to pass to require() that the load path resolves to file `to` (relative to the requiring file's
+        directory, relative to a `lib/` template, or relative to the absolute root), or None"""
         a = os.path.dirname(self.files[frm]['rel'])
         b = self.files[to]['rel'][:-4]
-        rel = os.path.relpath(os.path.join('/r', b), os.path.join('/r', a))
-        return rel
+        cands = [os.path.relpath(os.path.join('/r', b), os.path.join('/r', a)), b]
+        if b.startswith('lib/'):
+            cands.append(b[4:])
+        cands = [c for c in cands if '..' not in c.split('/') and self.resolve(frm, c) == to]
+        return self.rng.choice(cands) if cands else None
 
     def make_body(self, i, f):
         rng = self.rng
@@ -90,12 +116,18 @@ class Graph:
                 to, ugl = reqs[ri]
                 ri += 1
                 name = self.req_name(i, to)
-                if '..' in name.split('/'):
-                    continue        # would be rejected by the path filter; such graphs are C12's subject
+                if name is None:
+                    continue        # not reachable through the load path without `..` (rejected by the path filter: C12's subject)
                 opt = b', {use_game_loop=true}' if ugl else b''
-                form = rng.choice([0, 0, 1, 2])
+                form = rng.choice([0, 0, 1, 2, 3, 4, 5, 6, 7])
                 call = b'require("' + name.encode() + b'"' + opt + b')'
-                text = [b'local m%d = ' % ri + call, call, b'print(' + call + b')'][form]
+                text = [b'local m%d = ' % ri + call, call, b'print(' + call + b')',
+                        b'if x%d then\n  local q = ' % ri + call + b'\nelse\n  y=1\nend',
+                        b'function f%d()\n  return ' % ri + call + b'\nend',
+                        b't%d = {' % ri + call + b', k=1}',
+                        b'while false do ' + call + b' end',
+                        b'if (x%d) ' % ri + call,
+                        b'a%d = a%d or ' % (ri, ri) + call + b'.field'][form]
                 parts.append(('req', text, name, to, ugl))
         if i and rng.random() < 0.5:
             parts.append(('code', b'return {n=%d}' % i))
@@ -141,17 +173,28 @@ class Graph:
         return toks
 
 
-def run_build(main, out, lua_path=None):
+def run_build(main, out, lua_path=None, env_path=None):
     from pico8 import tool
     argv = ['-q', 'build', '--lua', main]
     if lua_path:
         argv += ['--lua-path', lua_path]
     argv.append(out)
-    with U.quiet(), contextlib.redirect_stdout(io.StringIO()), contextlib.redirect_stderr(io.StringIO()):
-        try:
-            return tool.main(argv)
-        except BaseException as e:
-            return e
+    if env_path:
+        os.environ['PICO8_LUA_PATH'] = env_path
+    try:
+        with U.quiet(), contextlib.redirect_stdout(io.StringIO()), contextlib.redirect_stderr(io.StringIO()):
+            try:
+                return tool.main(argv)
+            except BaseException as e:
+                return e
+    finally:
+        os.environ.pop('PICO8_LUA_PATH', None)
+
+
+def build_graph(g, main, out):
+    if g.lp_mode.startswith('env'):
+        return run_build(main, out, env_path=g.lua_path)
+    return run_build(main, out, lua_path=g.lua_path)
 
 
 def run(ctx, res):
@@ -172,7 +215,7 @@ def run(ctx, res):
         g.write()
         main = os.path.join(g.dir, 'main.lua')
         out = os.path.join(g.dir, 'out.p8')
-        rc = run_build(main, out)
+        rc = build_graph(g, main, out)
         res.evaluations += 1
         order, seen = g.expected()
         key = 'C14:graph:%d:%s' % (n, hx(g.files[0]['text'])[:40])
@@ -181,6 +224,14 @@ def run(ctx, res):
             res.fail(key, 'build of a valid package graph failed: %r' % (rc,), inp)
             continue
         code = b''.join(gfile.from_file(out).lua.to_lines())
+        # whole-build model (lexer, parser, walker, lookup, stripping, assembly, re-lex): byte-for-byte
+        words = ['buildlua', '0', I.hp(g.eff_path())]
+        for f in g.files:
+            words += [I.hp(os.path.normpath(os.path.join(g.dir, f['rel']))), hx(f['text']) if f['text'] else '.']
+        lines.append(' '.join(words))
+        expect.append(('code', code))
+        cases.append({'op': 'buildlua', 'graph': n, 'lua_path': g.eff_path(), 'files': {f['rel']: hx(f['text']) for f in g.files}})
+        res.count('load-path:' + g.lp_mode)
         got = sig_tokens(code)
         want = []
         ok = True
@@ -315,9 +366,59 @@ def run(ctx, res):
         expect.append('ok ' + hx(built) if built is not None else 'err')
         cases.append({'op': 'asmcode', 'packages': [nm.decode() for nm, _ in uniq]})
         res.evaluations += 1
+    # discovery of require() calls (RequireWalker vs ReqWalk.walk) on nested and malformed call forms
+    from pico8.lua import lua as lua_mod2
+    ARGS = [b'("a")', b'("a", {use_game_loop=true})', b'("b",{use_game_loop=false})', b'("a", {use_game_loop=true,})', b'("a";{use_game_loop=true})',
+            b'()', b'("a","b")', b'("a",{})', b'("a",{use_game_loop=1})', b'("a",{other=true})', b'("a",{use_game_loop=true,x=1})', b'("a",{true})',
+            b'("a",{["use_game_loop"]=true})', b'("a",{use_game_loop=true},3)', b'"a"', b'{1}', b'[[a]]', b'("a".."b")', b'(x)', b'("a", t)', b'(1)',
+            b'("x\\65y")', b'([[long]])', b'("a", {use_game_loop=not x})', b' ( "a" , { use_game_loop = true } ) ', b'(require("a"))', b'("a", {use_game_loop=nil})',
+            b'("a", {use_game_loop=(true)})', b'(("a"))', b'(\'q\')', b'("a", {use_game_loop=true;})', b'("a", nil)', b'(nil)', b'(...)']
+    WRAP = [b'%s\n', b'local x = %s\n', b'print(%s)\n', b'if x then %s else y=1 end\n', b'if x then y=1 elseif z then %s end\n', b'function f() return %s end\n',
+            b't={%s, k=%s, [1]=%s}\n', b'for i=1,2 do %s end\n', b'if (x) %s\n', b'while x do %s end\n', b'repeat %s until x\n', b'a[1]=%s\n', b'a=-%s\n',
+            b'a=b+%s*%s\n', b'return %s\n', b'f{%s}\n', b'f"x":g(%s)\n', b'%s.x(%s)\n', b'%s %s %s\n', b'do local function g(...) %s end end\n', b'x += %s\n',
+            b'?%s\n', b'goto n ::n:: %s\n', b'x = function() %s end\n', b'x = {f=function() return %s end}\n', b'x = y and %s or %s\n', b'x = not %s\n',
+            b'for k,v in pairs(%s) do end\n', b'if %s then end\n', b'while %s do end\n', b'x.y.z = %s\n', b'x:m(%s)\n', b'x[%s] = 1\n']
+    CALLEE = [b'require'] * 14 + [b'x.require', b'x:require', b'(require)', b'requires', b'_require', b'REQUIRE', b'require.x', b'print']
+
+    def impl_calls(src):
+        try:
+            l = lua_mod2.Lua.from_lines([src], version=8)
+        except Exception:
+            return 'err'
+        out = []
+        try:
+            for pth, ugl, tok in build.RequireWalker(l.tokens, l.root).walk():
+                out.append('%s:%d' % (hx(pth), 1 if ugl else 0))
+        except Exception:
+            out.append('E')
+        return 'ok ' + (' '.join(out) or '-')
+    for _ in range(ctx.budget(300, 6000)):
+        w = rng.choice(WRAP)
+        calls = tuple(rng.choice(CALLEE) + rng.choice(ARGS if rng.random() < 0.7 else ARGS[:4]) for _ in range(w.count(b'%s')))
+        src = w % calls
+        if rng.random() < 0.3:
+            w2 = rng.choice(WRAP)
+            src += w2 % tuple(rng.choice(CALLEE) + rng.choice(ARGS[:6]) for _ in range(w2.count(b'%s')))
+        il = impl_calls(src)
+        lines.append('reqcalls ' + hx(src))
+        expect.append(il)
+        cases.append({'op': 'reqcalls', 'source': hx(src)})
+        res.evaluations += 1
+        res.count('reqcalls:' + ('parse-error' if il == 'err' else 'arg-error' if il.endswith('E') else 'none' if il == 'ok -' else 'calls'))
+        if il.startswith('ok ') and il != 'ok -':
+            res.nontrivial.add(('reqcalls', w, calls))
     if ctx.model.available:
         for c, e, g_ in zip(cases, expect, ctx.model.run(lines)):
-            if e != g_:
+            if c['op'] == 'buildlua':
+                m = unhx(g_[3:]) if g_.startswith('ok ') else None
+                if m is not None and not m.endswith(b'\n'):
+                    m += b'\n'         # the cart writer ends the code section with a line feed (C03)
+                if m != e[1]:
+                    res.diff(c, hx(e[1])[:300], g_[:300])
+            elif c['op'] == 'reqcalls':
+                if not (e == g_ or (e == 'err' and g_.startswith('err'))):
+                    res.diff(c, e[:200], g_[:200])
+            elif e != g_:
                 res.diff(c, e[:200], g_[:200])
 
 
